@@ -36,12 +36,20 @@ def main():
                         continue
                     cases.append((pre + mt + flag + ',' + d).encode())
                 cases.append(('data:' + mt + flag + d).encode())
+    # long components: lengths around the sizes of the integer types an implementation might store offsets in (u8, u16)
+    long_cases = []
+    for n in (254, 255, 256, 257, 300, 511, 512, 65534, 65535, 65536, 65537, 70000):
+        for flag in ('', ';base64'):
+            long_cases.append(('data:' + ('text/' + 'x' * n)[:n] + flag + ',abc').encode())
+            long_cases.append(('data:text/plain' + (';p=' + 'v' * n) + flag + ',abc').encode())
+            long_cases.append(('data:text/plain' + flag + ',' + 'QUJD' * (n // 4 + 1)).encode())
+    cases += long_cases
     for b in c01.sample_strings(dfas['uri'], random.Random(rnd.random()), 20000 if thorough else 800):
         cases.append(b)
         if rnd.random() < 0.5:
             cases.append(b'data:' + b[b.find(b':') + 1:])
     if not thorough:
-        rnd.shuffle(cases); cases = cases[:6000]
+        rnd.shuffle(cases); cases = long_cases + [c for c in cases if c not in set(long_cases)][:6000]
     lines = ['dataurl\t%s' % hexs(b) for b in cases]
     impl = run_lines(harness, lines)
     mod = run_lines(model, lines)
